@@ -4,6 +4,7 @@ import BppModel.Text.StrLite
 import BppModel.Text.Number
 import BppModel.Text.Glob
 import BppModel.Text.Keyval
+import BppModel.Text.Vars
 /-
 Driver for C17 (round trips and exact grammars).  Stateless: every op carries its inputs.
 Strings are hex-escaped; the implementation's doubles arrive as 16 hex digits, the model's
@@ -79,6 +80,9 @@ def implIs (impl : Option (List String)) (want : String) (clause : String) : Str
   match impl with
   | none => "-"
   | some t => if " ".intercalate t == want then "ok" else "FAIL:" ++ clause
+
+/-- substitutions allowed per entry before the model reports `hang` -/
+def varsFuel : Nat := 400
 
 def step (s : Unit) (op : List String) (impl : Option (List String)) : Unit × String × String :=
   match op with
@@ -176,6 +180,37 @@ def step (s : Unit) (op : List String) (impl : Option (List String)) : Unit × S
         | none => "exc:bpp"
       (s, out, "-")
     | _, _, _ => (s, "bad-op", "-")
+  | "vars" :: _n :: rest =>
+    match parsePairs rest with
+    | some kvs =>
+      let am := Keyval.mapOfList kvs
+      let res := Vars.resolveVariables varsFuel am
+      let out := match res with
+        | .ok m => showMap m
+        | .exc => "exc:bpp"
+        | .diverge => "hang"
+      -- structured reading of the input: every value parses into text and closed references
+      let senv? : Option Vars.SEnv := am.mapM (fun kv => (Vars.parseSegs (kv.2.length + 1) kv.2).map (fun sg => (kv.1, sg)))
+      let acyclic := match senv? with
+        | some env => Vars.AcyclicOk env
+        | none => false
+      let verdict := match impl with
+        | none => "-"
+        | some ["hang"] => if acyclic then "FAIL:resolve_terminates" else "FAIL:resolve_terminates_cyclic"
+        | some ["exc:bpp"] => if acyclic then "FAIL:resolve_fixed_point" else "-"
+        | some (_ :: t) =>
+          match parsePairs t with
+          | none => "FAIL:parse"
+          | some m =>
+            -- no resolvable reference remains, whatever the input
+            if m.any (fun kv => (find ['$', '('] kv.2).isSome) then "FAIL:resolve_no_reference"
+            else match senv? with
+              | some env =>
+                if acyclic then (if m == Vars.resolved env then "ok" else "FAIL:resolve_fixed_point") else "ok"
+              | none => "ok"
+        | some _ => "FAIL:parse"
+      (s, out, verdict)
+    | none => (s, "bad-op", "-")
   | _ => (s, "bad-op", "-")
 
 def machine : Machine Unit := { init := fun _ => (), step := step }
